@@ -18,10 +18,14 @@ try:
     items.update({i['name']: i for i in mc.SYNC_FAMILIES + mc.DYN_FAMILIES + mc.LIVE_FAMILIES + mc.TX_FAMILIES})
     for r in mc.design(tier, wd, None) + mc.design(tier, wd, None, module='MC_Sync') + mc.design(tier, wd, None, module='MC_Dyn') + mc.design(tier, wd, None, module='MC_Live') + mc.design(tier, wd, None, module='MC_Tx'):
         print('design', r['name'], r['distinct'], r['wall_s'], 'completed' if r['completed'] else ('violated ' + str(r['violated'])), r.get('from_cache'), flush=True)
-    for nm in sorted(set(chk.COVER['quick'] + chk.COVER[tier] + [n for p in ('C08', 'C16', 'C09', 'C12', 'C14') for d, r, x in chk.SPECIFIC[p]['quick'] + chk.SPECIFIC[p][tier] if d in ('cover', 'coverpair') for n in x])):
+    from concurrent.futures import ThreadPoolExecutor
+    def one_cover(nm):
         nm, _, cap = nm.partition(':')
-        p, meta = mc.cover_file(items[nm], wd, mod=int(cap) if cap else 1)
-        print('cover', nm, meta.get('leaves'), meta.get('events'), os.path.getsize(p), flush=True)
+        cw = os.path.join(wd, 'cv-' + nm + '-' + (cap or '1')); os.makedirs(cw, exist_ok=True)
+        p, meta = mc.cover_file(items[nm], cw, cap=7200, mod=int(cap) if cap else 1)
+        print('cover', nm, cap, meta.get('leaves'), meta.get('events'), os.path.getsize(p), meta.get('wall_s'), flush=True)
+    with ThreadPoolExecutor(max_workers=int(os.environ.get('VERIF_REGEN_PAR', '7'))) as ex:    # one single-worker TLC each (the prefix tree needs a deterministic search order)
+        list(ex.map(one_cover, sorted(set(chk.COVER['quick'] + chk.COVER[tier] + [n for p in ('C08', 'C16', 'C09', 'C12', 'C14') for d, r, x in chk.SPECIFIC[p]['quick'] + chk.SPECIFIC[p][tier] if d in ('cover', 'coverpair') for n in x]))))
 finally:
     shutil.rmtree(wd, ignore_errors=True)
 # drop artefacts of older specification versions
@@ -36,7 +40,8 @@ for f in glob.glob(os.path.join(vlib.VERIF, 'generated', '*')):
     b = os.path.basename(f)
     ok = b == 'attacks.json'
     for nm, it in names.items():
-        if b.startswith('design-%s-%s' % (nm, mc.item_key(it))) or any(b.startswith('cover-%s-%s' % (nm, mc.item_key(it, 'cover%s' % c))) for c in caps.get(nm, [])):
+        cit = dict(it, module='MC_NodeCover') if it['module'] == 'MC_Node' else it     # the key cover_file uses
+        if b.startswith('design-%s-%s' % (nm, mc.item_key(it))) or any(b.startswith('cover-%s-%s' % (nm, mc.item_key(cit, 'cover%s' % c))) for c in caps.get(nm, [])) or b.startswith('cover-timerimpl-'):
             ok = True
     if not ok:
         os.remove(f); print('removed stale', b)
